@@ -167,6 +167,11 @@ func F64Eq(a, b float64) bool      { return a == b }
 func F64IsNaN(a float64) bool      { return a != a }
 func Observe(tag string, v ...any) {}
 
+// FixedSchedule(true) tells the engine not to fork on goroutine schedules (every select takes
+// its first ready case) for harnesses whose property does not quantify over schedules; natively
+// it has no effect.
+func FixedSchedule(on bool) {}
+
 // Symbolic reports whether the harness runs under the symbolic engine.
 func Symbolic() bool { return false }
 
